@@ -156,16 +156,22 @@ def G.Terminal (g : G) (y : Nat) : Prop := g.Node y ∧ ¬ ∃ w, g.Edge y w
 
 /-- the edges that `graft` adds around the nested graph `sub` put in place of `x` -/
 def Added (g sub : G) (x u w : Nat) : Prop :=
-  (sub.Terminal u ∧ g.Edge x w) ∨ (g.Edge u x ∧ sub.Initial w) ∨
-  ((∀ z, ¬ sub.Node z) ∧ g.Edge u x ∧ g.Edge x w)
+  (sub.Terminal u ∧ g.Edge x w ∧ w ≠ x) ∨ ((g.Edge u x ∧ u ≠ x) ∧ sub.Initial w) ∨
+  ((∀ z, ¬ sub.Node z) ∧ (g.Edge u x ∧ u ≠ x) ∧ g.Edge x w ∧ w ≠ x)
 
 /-- **`graft`**: exact nodes and edges of the result -/
 theorem graft_refines {g sub : G} (hg : GInv g) (hs : GInv sub) {x : Nat} (hx : g.Node x) :
     ∃ g', g.graft x sub = .ok g' ∧ GInv g' ∧
       (∀ z, g'.Node z ↔ (g.Node z ∧ z ≠ x) ∨ sub.Node z ∨ ∃ w, Added g sub x z w ∨ Added g sub x w z) ∧
       (∀ u w, g'.Edge u w ↔ (g.Edge u w ∧ u ≠ x ∧ w ≠ x) ∨ sub.Edge u w ∨ Added g sub x u w) := by
-  obtain ⟨deps, hdeps, mdeps⟩ := (dependencies_ok hg x).2 hx
-  obtain ⟨dpes, hdpes, mdpes⟩ := (dependees_spec hg x).2 hx
+  obtain ⟨deps0, hdeps, mdeps0⟩ := (dependencies_ok hg x).2 hx
+  obtain ⟨dpes0, hdpes, mdpes0⟩ := (dependees_spec hg x).2 hx
+  have mdeps : ∀ y, y ∈ deps0.filter (· ≠ x) ↔ (g.Edge x y ∧ y ≠ x) := by
+    intro y; rw [List.mem_filter, mdeps0 y]; simp
+  have mdpes : ∀ y, y ∈ dpes0.filter (· ≠ x) ↔ (g.Edge y x ∧ y ≠ x) := by
+    intro y; rw [List.mem_filter, mdpes0 y]; simp
+  generalize hdd : deps0.filter (· ≠ x) = deps at mdeps
+  generalize hpp : dpes0.filter (· ≠ x) = dpes at mdpes
   obtain ⟨g1, hg1, hi1, n1, e1⟩ := removeNode_refines hg x
   obtain ⟨inits, hinits, minits⟩ := initial_spec hs
   obtain ⟨terms, hterms, mterms⟩ := terminal_spec hs
@@ -195,7 +201,7 @@ theorem graft_refines {g sub : G} (hg : GInv g) (hs : GInv sub) {x : Nat} (hx : 
       | cons a r => exact absurd ((minits a).1 (by rw [hq]; simp)).1 (hno a)
     refine ⟨g5, ?_, hi5, ?_, ?_⟩
     · unfold G.graft
-      simp only [hdeps, hdpes, hg1, hinits, hterms, hg2, hg3, hg4, bind, Except.bind, h0, if_true]
+      simp only [hdeps, hdpes, hdd, hpp, hg1, hinits, hterms, hg2, hg3, hg4, bind, Except.bind, h0, if_true]
       exact hg5
     · intro z
       rw [n5 z, n4 z, n3 z, n2 z, n1 z]
@@ -241,7 +247,7 @@ theorem graft_refines {g sub : G} (hg : GInv g) (hs : GInv sub) {x : Nat} (hx : 
   · have hsome : ¬ ∀ z, ¬ sub.Node z := fun hno => h0 (hempty.2 hno)
     refine ⟨g4, ?_, hi4, ?_, ?_⟩
     · unfold G.graft
-      simp only [hdeps, hdpes, hg1, hinits, hterms, hg2, hg3, hg4, bind, Except.bind, h0, if_false]
+      simp only [hdeps, hdpes, hdd, hpp, hg1, hinits, hterms, hg2, hg3, hg4, bind, Except.bind, h0, if_false]
       rfl
     · intro z
       rw [n4 z, n3 z, n2 z, n1 z]
@@ -300,12 +306,12 @@ theorem graft_nodes {g sub : G} (hg : GInv g) (hs : GInv sub) {x : Nat} (hx : g.
     · exact Or.inr hz
     · rcases hw with ⟨ht, _⟩ | ⟨hzx, _⟩ | ⟨_, hzx, _⟩
       · exact Or.inr ht.1
-      · exact Or.inl (hdpe z hzx)
-      · exact Or.inl (hdpe z hzx)
+      · exact Or.inl (hdpe z hzx.1)
+      · exact Or.inl (hdpe z hzx.1)
     · rcases hw with ⟨_, hxz⟩ | ⟨_, hi⟩ | ⟨_, _, hxz⟩
-      · exact Or.inl (hdep z hxz)
+      · exact Or.inl (hdep z hxz.1)
       · exact Or.inr hi.1
-      · exact Or.inl (hdep z hxz)
+      · exact Or.inl (hdep z hxz.1)
   · rintro (hz | hz)
     · exact Or.inl hz
     · exact Or.inr (Or.inl hz)
